@@ -1052,9 +1052,11 @@ class Interp:
                 return a + b
             a, b = _ordv(a), _ordv(b)
             table = {"Eq": lambda: a == b, "Ne": lambda: a != b, "Lt": lambda: a < b, "Le": lambda: a <= b,
-                     "Gt": lambda: a > b, "Ge": lambda: a >= b, "Add": lambda: a + b, "Sub": lambda: a - b}
+                     "Gt": lambda: a > b, "Ge": lambda: a >= b, "Add": lambda: a + b, "Sub": lambda: a - b, "Mul": lambda: a * b}
             if op in table:
                 return table[op]()
+            if op in ("Div", "Rem") and isinstance(a, int) and isinstance(b, int) and not isinstance(a, bool) and b != 0 and a >= 0 and b > 0:
+                return a // b if op == "Div" else a % b          # unsigned operands: Rust's truncating division agrees with floor
             raise NotEvaluable(f"operator {op}")
         if k == "block":
             fc = _fmt_block(e)
